@@ -4,7 +4,7 @@ EXTENDS LinkedLimits, Json, Sequences
 CONSTANTS Depth,
           PV,         \* values written to p
           MinV, MaxV, \* values written to p_min / p_max
-          LA, LB      \* p_limits is written with every pair in LA \X LB
+          Pairs       \* p_limits is written with the pairs <<a, b>> given as two-digit codes 10*a + b
 VARIABLE hist
 
 Obs == [lo |-> lo', hi |-> hi', val |-> val', last |-> last']
@@ -16,7 +16,7 @@ GInit == /\ LInit
 GNext == \/ \E v \in PV : WriteP(v) /\ Rec([act |-> "p", v |-> v])
          \/ \E v \in MinV : SetMin(v) /\ Rec([act |-> "min", v |-> v])
          \/ \E v \in MaxV : SetMax(v) /\ Rec([act |-> "max", v |-> v])
-         \/ \E a \in LA, b \in LB : SetLimits(a, b) /\ Rec([act |-> "limits", a |-> a, b |-> b])
+         \/ \E c \in Pairs : SetLimits(c \div 10, c % 10) /\ Rec([act |-> "limits", a |-> c \div 10, b |-> c % 10])
 GSpec == GInit /\ [][GNext]_<<lvars, hist>>
 
 Bound == TLCGet("level") <= Depth
